@@ -7,18 +7,20 @@ Import ListNotations.
 Open Scope Z_scope.
 
 Inductive fcode := FAffine (a b : Z).                       (* x |-> a*x + b *)
-Inductive pcode := PLt (c : Z) | PEven | PModEq (m r : Z) | PTrue | PFalse.
+Inductive pcode := PLt (c : Z) | PEven | PModEq (m r : Z) | PTrue | PFalse
+  | PExcept (p : pcode) (m r : Z).   (* p, except that the predicate fails (answers true with an error) when x mod m = r *)
 Inductive failcode := NoFail | FailModEq (m r : Z) | FailIn (xs : list Z) | FailGe (m : Z).
 Inductive moncode := MSum | MProd | MLin.                   (* MLin: combine a b = 3a+b from 0: order sensitive *)
 
 Definition fapply (f : fcode) (x : Z) : Z := match f with FAffine a b => a * x + b end.
-Definition papply (p : pcode) (x : Z) : bool :=
+Fixpoint papply (p : pcode) (x : Z) : bool :=
   match p with
   | PLt c => Z.ltb x c
   | PEven => Z.even x
   | PModEq m r => Z.eqb (x mod m) r
   | PTrue => true
   | PFalse => false
+  | PExcept q m r => papply q x && negb (Z.eqb (x mod m) r)
   end.
 Definition fails (fl : failcode) (x : Z) : bool :=
   match fl with
